@@ -647,6 +647,7 @@ def run(F, sel=None):
     for e in tab.get("switch", []):
         reviewed.setdefault(e["fn"], []).append(e)
     n_sw = 0
+    matched_entries = set()
     guard_fns = {i["id"][len("guard|"):] for i in rb.instances}
     for b in gd:
         fk = fn_key(b)
@@ -654,8 +655,10 @@ def run(F, sel=None):
             continue
         sws = steered_switches(F, b, results[b.path])
         cands = [e for fn, es in reviewed.items() if fk.endswith(fn) for e in es]
+        inherited = False
         if not cands and sws:
             cands = [e for c in callers_of(fk) for fn, es in reviewed.items() if c.endswith(fn) for e in es]
+            inherited = True
         taken = set()
         hits = {}
         for k_, sw in enumerate(sws):           # exact descriptor first
@@ -683,6 +686,14 @@ def run(F, sel=None):
                     hits[k_] = e
                     taken.add(j_)
                     break
+        for k_, e_ in hits.items():
+            matched_entries.add((e_["fn"], e_["desc"]))
+            if True:
+                # one switch stands for every reviewed entry it could be matched to: a shared helper carries the switch of all
+                # functions that call it, and a def-path suffix may match two entries (`gc_pcsaft::..` ends with `pcsaft::..`)
+                for e2 in cands:
+                    if _polar(e2["desc"]) == _polar(e_["desc"]):
+                        matched_entries.add((e2["fn"], e2["desc"]))
         for k_, sw in enumerate(sws):
             n_sw += 1
             hit = hits.get(k_)
@@ -700,6 +711,23 @@ def run(F, sel=None):
                         "both pieces agree to the order of the derivatives taken (first to third for state properties, second/third density derivative "
                         "for virial coefficients at zero density) the derivatives at the switching point are those of the wrong piece — not reviewed"
                         % (fk, sw["desc"]))
+    # two-sided: a reviewed piecewise definition that *repairs* a singular expression (it names the call its replacement arm must
+    # contain) may not silently disappear — `phi2^2 / (phi2 - phi3 - EPSILON)` has no 0/0 any more and no derivatives either
+    present = {fn_key(b) for b in gd}
+    for fn, es in reviewed.items():
+        for e in es:
+            if not e.get("arm_must_call") and not e.get("required"):
+                continue
+            if sel and not sel(fn):
+                continue
+            if not any(p_.endswith(fn) for p_ in present):
+                continue
+            if (e["fn"], e["desc"]) in matched_entries:
+                continue
+            rd.inst("switch|%s|%s|removed" % (fn, e["desc"]), "-", "violation")
+            rd.fail("%s|switch|%s|removed" % (fn, e["desc"]), "-",
+                    "%s: the reviewed piecewise definition (%s: %s) is gone — the singular expression it replaced is evaluated (or regularised "
+                    "in another, unreviewed way) at the point where the replacement applied" % (fn, e["desc"], e["reason"][:120]))
     rd.floor("piecewise definitions examined", n_sw, tab["floors"].get("switches", 1))
     rd.exhaustive = True
     for rule in ex:
